@@ -12,6 +12,9 @@ from . import solve
 from .engine import Session, Undecided
 
 VERIF = os.path.dirname(os.path.dirname(os.path.abspath(__file__)))
+# runs against a scratch copy (PYVC_REPO set by the mutation / seed tools) must not touch the committed evidence
+SCRATCH = os.environ.get("PYVC_REPO", "/repo") != "/repo"
+OUTDIR = os.environ.get("PYVC_OUT", "/tmp/pyvc_scratch_out") if SCRATCH else VERIF
 NATIVE_PY = "/venv/bin/python"
 
 EXIT_OK, EXIT_VIOLATION, EXIT_UNDECIDED, EXIT_ERROR = 0, 1, 2, 3
@@ -48,7 +51,7 @@ def load_known():
 
 
 def write_replay(prop, name, payload):
-    d = os.path.join(VERIF, "replays", prop)
+    d = os.path.join(OUTDIR, "replays", prop)
     os.makedirs(d, exist_ok=True)
     safe = name.replace("/", "_").replace(" ", "_")
     path = os.path.join(d, safe + ".json")
@@ -269,8 +272,8 @@ def main(argv=None):
         "wall_s": round(time.time() - t0, 3),
         "violations": len(violations),
     }
-    os.makedirs(os.path.join(VERIF, "evidence"), exist_ok=True)
-    with open(os.path.join(VERIF, "evidence", "%s.json" % prop), "w") as f:
+    os.makedirs(os.path.join(OUTDIR, "evidence"), exist_ok=True)
+    with open(os.path.join(OUTDIR, "evidence", "%s.json" % prop), "w") as f:
         json.dump(evidence, f, indent=1, default=str)
 
     for line in known_lines:
